@@ -49,8 +49,8 @@ CHECKS = {
                      '(export_multiset_unroll); exports compared instruction-wise with the model before/after unrolling and flattening. Library clause: '
                      'known finding R5. Detector / observable / coordinate-shift instructions proved equal to their SOURCE TEXT.', ref='DESIGN.md §4 C08, §2.3b'),
     'C09': dict(text='Product-state semantics of the exported gate set; protocol record, prepared states, detector and observable values '
-                     'proved for ALL cycle counts and ALL computational initial states over a kernel-checked table of 460 descriptions '
-                     '(chains ≤ 9 data qubits, every forward layout sub-chain) — partial in the chain length; generator tied to the real '
+                     'proved for ALL chain lengths, ALL cycle counts and ALL computational initial states (chain descriptions, by a locality argument); '
+                     'for the Surface-17 layout sub-chains over a kernel-checked table; generator tied to the real '
                      'export text and to stim\'s tableau simulator.', ref='DESIGN.md §4 C09'),
     'C10': dict(text='General no-overlap theorems about the timing evaluator (FOLLOWED_BY chains, block after block, interval covers '
                      'nodes) for all non-negative durations; verified symbolic-schedule checker evaluated by the kernel on generated '
@@ -75,7 +75,7 @@ CHECKS = {
                      'kernel/program calls compared with the model; thorough tier compiles to cQASM.', ref='DESIGN.md §4 C15'),
     'C16': dict(text='allowed_iff / parking_iff / generator_sound proved for EVERY list of device edges over tables regenerated from the '
                      'code on each run (48×48 pair table by decide +kernel); exhaustive ≤ 3-edge (thorough ≤ 4) correspondence and '
-                     'generator soundness on the implementation.', ref='DESIGN.md §4 C16'),
+                     'generator soundness on the implementation. get_mutually_allowed proved equal to its SOURCE TEXT.', ref='DESIGN.md §4 C16, §2.3b'),
     'C17': dict(text='Shipped layouts executable by decide over regenerated tables; derived and composite descriptions executable and '
                      'index map bijective for every involved-qubit list (theorems); all chains, random subsets/orderings and exclusions '
                      'compared with the implementation.', ref='DESIGN.md §4 C17'),
